@@ -1,6 +1,7 @@
 package main
 
 import (
+	"fmt"
 	"math/rand"
 	"strings"
 )
@@ -83,4 +84,31 @@ func genRaBytes(r *rand.Rand, maxLines int) string {
 		}
 	}
 	return joinLines(r, lines, 0.15, chance(r, 0.8))
+}
+
+// genBigRa: a well-formed but untidy assembly file of 5 KiB … 80 KiB — more than one buffer-full of every reader and
+// writer on the way (bufio's 4096 bytes, the scanner's initial buffer) — made of top-level comments and entries with a
+// few balanced blocks in between; size-dependent faults (a slice of a reused buffer kept, a write into the array still
+// being read) need nothing else to show.
+func genBigRa(r *rand.Rand) string {
+	n := 300 + r.Intn(1500)
+	var lines []string
+	if chance(r, 0.5) {
+		lines = append(lines, "##! Please refer to the documentation at", "##! https://coreruleset.org/docs/development/regex_assembly/.", "")
+	}
+	for i := 0; i < n; i++ {
+		switch r.Intn(12) {
+		case 0:
+			lines = append(lines, indent(r)+"##!> assemble", indent(r)+fmt.Sprintf("inner%d", i), indent(r)+"##!=>", indent(r)+fmt.Sprintf("tail%d[a-z]+", i), indent(r)+"##!<")
+		case 1:
+			lines = append(lines, indent(r)+fmt.Sprintf("##! note %d about the next entry", i))
+		case 2:
+			lines = append(lines, indent(r)+"##!>   include   words"+fmt.Sprint(i%7)+pick(r, []string{"", "  --  @  ~", " -- a b   c d"}))
+		case 3:
+			lines = append(lines, "")
+		default:
+			lines = append(lines, indent(r)+fmt.Sprintf("entry%d%s", i, pick(r, []string{"", "\\s+x", "(?:a|b)", "[0-9]{2,3}", "  ", "\t"})))
+		}
+	}
+	return joinLines(r, lines, 0.1, chance(r, 0.85))
 }
